@@ -673,6 +673,13 @@ def replay(chk):
             verdict, base, obs, m_obs, in_grammar = judge_load(chk, env, c["adapter"], c["text"], "replay", record=False)
             print(f"replay: impl={obs} model={m_obs} in_grammar={in_grammar} verdict={verdict}")
             bad = verdict == "spec"
+        elif c.get("kind") in ("roundtrip-large", "load-large"):
+            pol = large_policy(c["shift"], c["bytes"])
+            before, saved, obs = run_roundtrip(env, c["adapter"], c["model"], pol)
+            text = "".join(", ".join([pt] + r) + "\n" for pt, rs in pol.items() for r in rs)
+            base, obs2 = run_load(env, c["adapter"], text)
+            print(f"replay: large policy shift={c['shift']} bytes={c['bytes']}: round trip ok={obs == obs_ok(before)} load ok={obs2 == obs_ok(before)}")
+            bad = obs != obs_ok(before) or obs2 != obs_ok(before)
         elif c.get("kind") == "line":
             o = impl_parse_line(c["line"])
             s, (_, _, in_grammar) = chk.oracle.query([(4, c["line"]), (11, c["line"])])
